@@ -320,7 +320,7 @@ class RmsNorm(Op):
 
 # ----------------------------------------------------------------------------- add
 ADD_PATTERNS = ["equal", "size1", "missing_leading", "both_expand", "scalar_tensor", "one_elem_right",
-                "py_float_right", "py_int_left"]
+                "py_float_right", "py_int_left", "missing_and_size1", "missing_and_size1_left", "size1_inner"]
 
 
 class Add(Op):
@@ -331,6 +331,8 @@ class Add(Op):
 
     def valid(self, c):
         if c["pattern"] in ("size1", "missing_leading", "both_expand") and not c["batch"]:
+            return False
+        if c["pattern"] in ("missing_and_size1", "missing_and_size1_left", "size1_inner") and len(c["batch"]) < 2:
             return False
         return True
 
@@ -345,6 +347,12 @@ class Add(Op):
             return full, [c["n"]]
         if p == "both_expand":
             return c["batch"] + [1], [1] * len(c["batch"]) + [c["n"]]
+        if p == "missing_and_size1":  # ONE operand has both a missing leading dim and an expanded size-1 dim
+            return full, [1, c["n"]]
+        if p == "missing_and_size1_left":
+            return [1, c["n"]], full
+        if p == "size1_inner":
+            return full, [c["batch"][-1], 1]
         if p == "scalar_tensor":
             return full, []
         if p == "one_elem_right":
